@@ -266,7 +266,8 @@ func parseManifestStream(s string) (m ManifestStream) {
 			m.Err = fmt.Errorf("Invalid file token: %s", ft)
 			break
 		}
-		if pft.SegPos+pft.SegLen > streamoffset {
+		if pft.SegLen > streamoffset || pft.SegPos > streamoffset-pft.SegLen {
+			// (written this way because SegPos+SegLen can overflow uint64)
 			m.Err = fmt.Errorf("File segment %s extends past end of stream %d", ft, streamoffset)
 			break
 		}
